@@ -1,4 +1,5 @@
 import PdtVerif.Lemmas.OptCompletion
+import PdtVerif.Lemmas.OptCompletionBatch
 /-!
 # C03 — optimal-completion targets are exactly the distance-preserving next tokens
 
@@ -364,5 +365,277 @@ theorem C03_loss_prefix (cfg : Cfg) (hex : cfg.excludeLast = true)
   constructor
   · rw [C03_loss_cell _ w lsm [] n (by simp)]; simp [lossSpec]
   · rw [C03_loss_counted _ [] n (by simp)]; rfl
+
+/-! ## Rows of the output: what is specified, and that the harness's judgements are exact -/
+
+/-- **The harness's per-row judgement is sound and complete.** `rowCheck pad O row` — strip the
+trailing padding, no padding value inside, no token twice, listed tokens = oracle tokens — holds
+iff the row satisfies the property's statement about a row (`RowProp`) for the set `O`. -/
+theorem C03_rowcheck (pad : Int) (O row : List Int) :
+    rowCheck pad O row = true ↔ RowProp pad (· ∈ O) row := by
+  unfold rowCheck RowProp
+  simp only [Bool.and_eq_true, Bool.not_eq_true', List.all_eq_true, List.contains_iff_mem]
+  constructor
+  · rintro ⟨⟨⟨h1, h2⟩, h3⟩, h4⟩
+    obtain ⟨m, hm⟩ := stripPad_spec pad row
+    refine ⟨stripPad pad row, m, hm, ?_, (nodupB_iff _).mp h2, fun t => ⟨h3 t, h4 t⟩⟩
+    intro hmem
+    have := List.contains_iff_mem.mpr hmem
+    rw [h1] at this
+    exact Bool.false_ne_true this
+  · rintro ⟨S, m, rfl, hp, hn, hmem⟩
+    rw [stripPad_append_replicate pad S m hp]
+    refine ⟨⟨⟨?_, (nodupB_iff _).mpr hn⟩, fun t ht => (hmem t).mp ht⟩, fun t ht => (hmem t).mpr ht⟩
+    cases hc : S.contains pad
+    · rfl
+    · exact absurd (List.contains_iff_mem.mp hc) hp
+
+example : rowCheck (-100) [2, 1] [1, 2, -100, -100] = true ∧ rowCheck (-100) [2, 1] [1, -100, 2] = false
+    ∧ rowCheck (-100) [2, 1] [1, 1, 2] = false ∧ rowCheck (-100) [] [-100] = true := by decide
+
+/-- **Order and width are the only freedom.** If one row satisfies the property's statement for
+`P`, then another row satisfies it iff the two rows agree as multisets once their trailing padding
+is stripped. So two outputs that both satisfy the property differ at most in the order of the
+targets inside a row and in the number of padding entries (the width `C`), and every such
+variation of a correct output is again correct. -/
+theorem C03_row_freedom (pad : Int) (P : Int → Prop) (r1 r2 : List Int) (h1 : RowProp pad P r1) :
+    RowProp pad P r2 ↔ (stripPad pad r2).Perm (stripPad pad r1) := by
+  obtain ⟨S1, m1, rfl, hp1, hn1, hm1⟩ := h1
+  rw [stripPad_append_replicate pad S1 m1 hp1]
+  constructor
+  · rintro ⟨S2, m2, rfl, hp2, hn2, hm2⟩
+    rw [stripPad_append_replicate pad S2 m2 hp2]
+    exact (List.perm_ext_iff_of_nodup hn2 hn1).mpr (fun a => (hm2 a).trans (hm1 a).symm)
+  · intro hperm
+    obtain ⟨m, hm⟩ := stripPad_spec pad r2
+    refine ⟨stripPad pad r2, m, hm, fun h => hp1 (hperm.mem_iff.mp h), hperm.nodup_iff.mpr hn1, ?_⟩
+    intro t
+    rw [hperm.mem_iff]
+    exact hm1 t
+
+/-- Any reordering of the list and any number of padding entries is again a correct row. -/
+theorem C03_row_any_order_width (pad : Int) (P : Int → Prop) (S S' : List Int) (m m' : Nat)
+    (hp : pad ∉ S) (h : RowProp pad P (S ++ List.replicate m pad)) (hperm : S'.Perm S) :
+    RowProp pad P (S' ++ List.replicate m' pad) := by
+  have hp' : pad ∉ S' := fun hm => hp (hperm.mem_iff.mp hm)
+  rw [C03_row_freedom pad P _ _ h, stripPad_append_replicate pad S m hp,
+    stripPad_append_replicate pad S' m' hp']
+  exact hperm
+
+example : RowProp (-100) (fun t => t = 1 ∨ t = 2) ([1, 2] ++ List.replicate 1 (-100)) :=
+  ⟨[1, 2], 1, rfl, by decide, by decide, fun t => by simp⟩
+
+/-- **The harness's correspondence test is sound and complete**: given that the model's row
+satisfies the property's statement, an implementation row satisfies it iff `rowAgree` (stripped
+rows equal as multisets) accepts it. -/
+theorem C03_rowagree (pad : Int) (P : Int → Prop) (modelRow implRow : List Int)
+    (hm : RowProp pad P modelRow) :
+    RowProp pad P implRow ↔ rowAgree pad modelRow implRow = true := by
+  unfold rowAgree
+  rw [List.isPerm_iff]
+  exact C03_row_freedom pad P modelRow implRow hm
+
+/-- **The executable oracle is the target set**: for strictly positive costs and a candidate list
+that contains the tokens of the reference, `oracleTargets` lists each `t` with
+`best (p ++ [t]) = best p` exactly once and nothing else. -/
+theorem C03_oracle (c : Costs) (hi : 0 < c.ins) (hd : 0 < c.del) (hs : 0 < c.sub)
+    (cands ref p : List Int) (hc : ∀ t ∈ ref, t ∈ cands) :
+    (oracleTargets c cands ref p).Nodup ∧
+    ∀ t, t ∈ oracleTargets c cands ref p ↔ IsTarget c ref p t :=
+  oracleTargets_spec c hi hd hs cands ref p hc
+
+example : oracleTargets ⟨1, 1, 1⟩ [1, 2, 2, 3, 7] [1, 2, 2, 3] [2] = [1, 2] := by decide +kernel
+
+/-! ## Batch level: `batch_first`, the `(H', N, C)` layout -/
+
+/-- **`C03_layout`**: for a non-empty batch whose two token tensors agree on the batch size,
+`optimal_completion` succeeds; its result has shape `(H', N, C)` — `(N, H', C)` under `batch_first`
+—; and the vector at (prefix `k`, sequence `n`) — `[k, n, :]`, resp. `[n, k, :]` — is the
+per-column model's list for the `n`-th reference and hypothesis, read off the input tensors in the
+layout of the call (`seqOf`), followed only by padding. Transposing the inputs (`.t()`), running the
+columns through one flat `masked_select`/`masked_scatter_` buffer and transposing the result back
+neither mixes sequences nor prefixes. -/
+theorem C03_layout (cfg : Cfg) (bf : Bool) (ref hyp : Tens2 Int)
+    (hN : batchOf bf ref = batchOf bf hyp) (hpos : 0 < batchOf bf ref) :
+    ∃ out, optimalCompletionT cfg bf ref hyp = .ok out ∧
+      out.d0 = (if bf then batchOf bf ref else 1 + nIter cfg.excludeLast (seqLen bf hyp)) ∧
+      out.d1 = (if bf then 1 + nIter cfg.excludeLast (seqLen bf hyp) else batchOf bf ref) ∧
+      ∀ k n, k ≤ nIter cfg.excludeLast (seqLen bf hyp) → n < batchOf bf ref →
+        (targetList cfg bf ref hyp n k).length ≤ out.d2 ∧
+        out.vec cfg.padding (if bf then n else k) (if bf then k else n)
+          = targetList cfg bf ref hyp n k ++
+              List.replicate (out.d2 - (targetList cfg bf ref hyp n k).length) cfg.padding :=
+  optimalCompletionT_spec cfg bf ref hyp hN hpos
+
+/-- The same batch handed over in the two layouts (`(R, N)`/`(H, N)` and, under `batch_first`,
+`(N, R)`/`(N, H)`): same lists, result transposed. -/
+example :
+    (optimalCompletionT ⟨some 0, true, false, ⟨1, 1, 1⟩, -100⟩ false
+        ⟨3, 2, [1, 3, 2, 0, 2, 1]⟩ ⟨2, 2, [2, 3, 1, 0]⟩).toOption.map (fun t => (t.d0, t.d1, t.d2, t.data))
+      = some (3, 2, 2, [1, -100, 3, -100, 1, 2, 0, -100, 2, -100, -100, -100]) ∧
+    (optimalCompletionT ⟨some 0, true, false, ⟨1, 1, 1⟩, -100⟩ true
+        ⟨2, 3, [1, 2, 2, 3, 0, 1]⟩ ⟨2, 2, [2, 1, 3, 0]⟩).toOption.map (fun t => (t.d0, t.d1, t.d2, t.data))
+      = some (2, 3, 2, [1, -100, 1, 2, 2, -100, 3, -100, 0, -100, -100, -100]) := by
+  constructor <;> decide +kernel
+
+/-- Outside the domain of `C03_layout` the model refuses like the code: different batch sizes, or an
+empty batch (`counts.max()` of an empty tensor). -/
+theorem C03_layout_rejects (cfg : Cfg) (bf : Bool) (ref hyp : Tens2 Int)
+    (h : batchOf bf ref ≠ batchOf bf hyp ∨ batchOf bf ref = 0) :
+    optimalCompletionT cfg bf ref hyp = .error "RuntimeError" := by
+  unfold optimalCompletionT
+  simp only [layout_d1]
+  rcases h with h | h
+  · rw [if_pos h]
+  · by_cases h' : batchOf bf ref ≠ batchOf bf hyp
+    · rw [if_pos h']
+    · rw [if_neg h', if_pos h]
+
+/-- **`C03_output_rows`** (the property for the whole output tensor): strictly positive costs, a
+non-empty batch, no sequence at the excluded point, and a padding value that is no token of a cut
+reference. Then every vector `[k, n, :]` (`[n, k, :]` under `batch_first`) of the model's output
+satisfies the property's statement about a row for `TargetAt … n k`: it lists, once each and
+followed only by padding, exactly the tokens that keep the smallest reachable distance of the
+`k`-token prefix of the cut `n`-th hypothesis against the cut `n`-th reference — and nothing when
+`k` is past the hypothesis's end. -/
+theorem C03_output_rows (cfg : Cfg)
+    (hi : 0 < cfg.costs.ins) (hd : 0 < cfg.costs.del) (hs : 0 < cfg.costs.sub)
+    (bf : Bool) (ref hyp : Tens2 Int)
+    (hN : batchOf bf ref = batchOf bf hyp) (hpos : 0 < batchOf bf ref)
+    (hdom : ∀ n, n < batchOf bf ref →
+      ¬ (cfg.excludeLast = true ∧ cutLen cfg.eos cfg.includeEos (seqOf bf hyp n) = 0))
+    (hpad : ∀ n, n < batchOf bf ref →
+      cfg.padding ∉ (seqOf bf ref n).take (cutLen cfg.eos cfg.includeEos (seqOf bf ref n))) :
+    ∃ out, optimalCompletionT cfg bf ref hyp = .ok out ∧
+      ∀ k n, k ≤ nIter cfg.excludeLast (seqLen bf hyp) → n < batchOf bf ref →
+        RowProp cfg.padding (TargetAt cfg bf ref hyp n k)
+          (out.vec cfg.padding (if bf then n else k) (if bf then k else n)) := by
+  obtain ⟨out, hout, _, _, hrows⟩ := C03_layout cfg bf ref hyp hN hpos
+  refine ⟨out, hout, fun k n hk hn => ?_⟩
+  obtain ⟨_, hv⟩ := hrows k n hk hn
+  rw [hv]
+  have hk' : k ≤ nIter cfg.excludeLast (seqOf bf hyp n).length := by rw [seqOf_length]; exact hk
+  obtain ⟨hpw, hval, hinv⟩ := C03_model_targets cfg hi hd hs (seqOf bf ref n) (seqOf bf hyp n) k hk'
+    (hdom n hn)
+  refine ⟨targetList cfg bf ref hyp n k, _, rfl, ?_, ?_, ?_⟩
+  · exact fun hm => hpad n hn (colSelected_mem_cut cfg hi hd hs _ _ k _ hm)
+  · exact hpw.imp (fun h => ne_of_lt h)
+  · intro t
+    unfold TargetAt
+    by_cases hv : ValidPrefix cfg.excludeLast (cutLen cfg.eos cfg.includeEos (seqOf bf hyp n)) k
+    · exact ⟨fun h => ⟨hv, (hval hv t).mp h⟩, fun h => (hval hv t).mpr h.2⟩
+    · have hnil : targetList cfg bf ref hyp n k = [] := hinv hv
+      rw [hnil]
+      exact ⟨fun h => absurd h List.not_mem_nil, fun h => absurd h.1 hv⟩
+
+/-- The hypotheses of `C03_output_rows` hold on a batch of two sequences handed over batch-first
+(second reference `3 eos 1`: garbage after the eos; eos counted). -/
+example :
+    batchOf true (⟨2, 3, [1, 2, 2, 3, 0, 1]⟩ : Tens2 Int) = batchOf true (⟨2, 2, [2, 1, 3, 0]⟩ : Tens2 Int)
+    ∧ 0 < batchOf true (⟨2, 3, [1, 2, 2, 3, 0, 1]⟩ : Tens2 Int)
+    ∧ (∀ n, n < 2 → ¬ (false = true ∧ cutLen (some 0) true (seqOf true ⟨2, 2, [2, 1, 3, 0]⟩ n) = 0))
+    ∧ (∀ n, n < 2 → (-100 : Int) ∉
+        (seqOf true ⟨2, 3, [1, 2, 2, 3, 0, 1]⟩ n).take (cutLen (some 0) true (seqOf true ⟨2, 3, [1, 2, 2, 3, 0, 1]⟩ n))) := by
+  decide
+
+/-- The executable oracle of (sequence `n`, prefix `k`) is the property's predicate `TargetAt`. -/
+theorem C03_oracle_at (cfg : Cfg)
+    (hi : 0 < cfg.costs.ins) (hd : 0 < cfg.costs.del) (hs : 0 < cfg.costs.sub)
+    (bf : Bool) (ref hyp : Tens2 Int) (n k : Nat) (t : Int) :
+    t ∈ oracleAt cfg bf ref hyp n k ↔ TargetAt cfg bf ref hyp n k t := by
+  unfold oracleAt TargetAt
+  simp only
+  by_cases hv : ValidPrefix cfg.excludeLast (cutLen cfg.eos cfg.includeEos (seqOf bf hyp n)) k
+  · rw [if_pos hv]
+    rw [(C03_oracle cfg.costs hi hd hs _ _ _ (fun t ht => by
+      have := List.mem_of_mem_take ht
+      simp only [List.mem_append]
+      exact Or.inl (Or.inl this))).2 t]
+    exact ⟨fun h => ⟨hv, h⟩, fun h => h.2⟩
+  · rw [if_neg hv]
+    exact ⟨fun h => absurd h List.not_mem_nil, fun h => absurd h.1 hv⟩
+
+/-- **`C03_check_sound_complete`**: under the hypotheses of `C03_output_rows`, for ANY candidate row
+`r` (e.g. the implementation's vector at (prefix `k`, sequence `n`)) the following are equivalent:
+`r` satisfies the property's statement for that place; `r` agrees with the model's vector as a
+multiset after stripping trailing padding (the harness's correspondence test `rowAgree`); the
+harness's predicate `rowCheck` accepts `r` against the executable oracle `oracleAt`. -/
+theorem C03_check_sound_complete (cfg : Cfg)
+    (hi : 0 < cfg.costs.ins) (hd : 0 < cfg.costs.del) (hs : 0 < cfg.costs.sub)
+    (bf : Bool) (ref hyp : Tens2 Int)
+    (hN : batchOf bf ref = batchOf bf hyp) (hpos : 0 < batchOf bf ref)
+    (hdom : ∀ n, n < batchOf bf ref →
+      ¬ (cfg.excludeLast = true ∧ cutLen cfg.eos cfg.includeEos (seqOf bf hyp n) = 0))
+    (hpad : ∀ n, n < batchOf bf ref →
+      cfg.padding ∉ (seqOf bf ref n).take (cutLen cfg.eos cfg.includeEos (seqOf bf ref n)))
+    (out : Tens3 Int) (hout : optimalCompletionT cfg bf ref hyp = .ok out)
+    (k n : Nat) (hk : k ≤ nIter cfg.excludeLast (seqLen bf hyp)) (hn : n < batchOf bf ref)
+    (r : List Int) :
+    (RowProp cfg.padding (TargetAt cfg bf ref hyp n k) r ↔
+      rowAgree cfg.padding (out.vec cfg.padding (if bf then n else k) (if bf then k else n)) r = true) ∧
+    (RowProp cfg.padding (TargetAt cfg bf ref hyp n k) r ↔
+      rowCheck cfg.padding (oracleAt cfg bf ref hyp n k) r = true) := by
+  obtain ⟨out', hout', hrows⟩ := C03_output_rows cfg hi hd hs bf ref hyp hN hpos hdom hpad
+  have e : out' = out := by
+    rw [hout] at hout'
+    exact (Except.ok.inj hout').symm
+  subst e
+  refine ⟨C03_rowagree _ _ _ _ (hrows k n hk hn), ?_⟩
+  rw [C03_rowcheck]
+  exact RowProp_congr _ _ _ (fun t => (C03_oracle_at cfg hi hd hs bf ref hyp n k t).symm) r
+
+/-! ## The reductions of the loss -/
+
+/-- **`C03_loss_reduce`**: `hard_optimal_completion_distillation_loss` on whole tensors, for
+strictly positive costs, a non-empty batch with at least one hypothesis position, logits matching
+`hyp`, an admissible eos, and an `ignore_index` that is no token of a cut reference. For either
+value of `batch_first`:
+* `reduction="none"` returns the matrix, in the layout of `hyp`, whose entry at (prefix `k`,
+  sequence `n`) is `specCell … k n = lossSpec` (minus the average weighted log-probability) over
+  the target list of that place;
+* `reduction="sum"` returns `lossSumSpec`, the sum of these cells over all prefixes and sequences;
+* `reduction="mean"` returns `lossMeanSpec`: per sequence the sum over its prefixes divided by the
+  number of prefixes that have a target (1 if none), averaged over the sequences — the model
+  reduces along `seq_dim = 1 if batch_first else 0`, the formula does not mention the layout. -/
+theorem C03_loss_reduce (cfg : Cfg) (hex : cfg.excludeLast = true)
+    (hi : 0 < cfg.costs.ins) (hd : 0 < cfg.costs.del) (hs : 0 < cfg.costs.sub)
+    (bf : Bool) (w : Int → Rat) (lsm : Tens3 Rat) (ref hyp : Tens2 Int)
+    (hN : batchOf bf ref = batchOf bf hyp) (hpos : 0 < batchOf bf ref) (hH : 0 < seqLen bf hyp)
+    (hl0 : lsm.d0 = hyp.d0) (hl1 : lsm.d1 = hyp.d1)
+    (heos : (cfg.includeEos && badEos cfg.eos cfg.padding lsm.d2) = false)
+    (hpad : ∀ n, n < batchOf bf ref →
+      cfg.padding ∉ (seqOf bf ref n).take (cutLen cfg.eos cfg.includeEos (seqOf bf ref n))) :
+    (∃ L, hardOCDLossT cfg bf .none w lsm ref hyp = .ok (.matrix L) ∧ L.d0 = hyp.d0 ∧ L.d1 = hyp.d1 ∧
+        ∀ k n, k < seqLen bf hyp → n < batchOf bf ref →
+          L.get 0 (if bf then n else k) (if bf then k else n) = specCell cfg bf w lsm ref hyp k n) ∧
+    hardOCDLossT cfg bf .sum w lsm ref hyp
+      = .ok (.scalar (lossSumSpec (seqLen bf hyp) (batchOf bf ref) (specCell cfg bf w lsm ref hyp))) ∧
+    hardOCDLossT cfg bf .mean w lsm ref hyp
+      = .ok (.scalar (lossMeanSpec (seqLen bf hyp) (batchOf bf ref) (specCell cfg bf w lsm ref hyp)
+          (specHas cfg bf ref hyp))) :=
+  hardOCDLossT_spec cfg hex bf w lsm ref hyp hN hpos hH hl0 hl1 heos
+    (fun n k hn hm => hpad n hn (colSelected_mem_cut cfg hi hd hs _ _ k _ hm))
+
+/-- The hypotheses of `C03_loss_reduce` hold on the literal of the next example. -/
+example :
+    batchOf true (⟨2, 2, [1, 2, 2, 0]⟩ : Tens2 Int) = batchOf true (⟨2, 2, [2, 1, 1, 0]⟩ : Tens2 Int)
+    ∧ 0 < seqLen true (⟨2, 2, [2, 1, 1, 0]⟩ : Tens2 Int)
+    ∧ (false && badEos (some 0) (-2) 3) = false
+    ∧ (∀ n, n < 2 → (-2 : Int) ∉
+        (seqOf true ⟨2, 2, [1, 2, 2, 0]⟩ n).take (cutLen (some 0) false (seqOf true ⟨2, 2, [1, 2, 2, 0]⟩ n))) := by
+  decide
+
+/-- seed-like check of the statement on a literal: two sequences of different lengths, eos 0 not
+counted, `batch_first`; the `mean` of the model is `lossMeanSpec` of the declarative cells. -/
+example :
+    (match hardOCDLossT ⟨some 0, false, true, ⟨1, 1, 1⟩, -2⟩ true .mean (fun _ => 1)
+        ⟨2, 2, 3, [-1, -2, -3, -1, -1, -4, -2, -2, -2, -5, -1, -1]⟩ ⟨2, 2, [1, 2, 2, 0]⟩ ⟨2, 2, [2, 1, 1, 0]⟩ with
+      | .ok (.scalar q) => some q
+      | _ => none)
+    = some (lossMeanSpec 2 2
+        (specCell ⟨some 0, false, true, ⟨1, 1, 1⟩, -2⟩ true (fun _ => 1)
+          ⟨2, 2, 3, [-1, -2, -3, -1, -1, -4, -2, -2, -2, -5, -1, -1]⟩ ⟨2, 2, [1, 2, 2, 0]⟩ ⟨2, 2, [2, 1, 1, 0]⟩)
+        (specHas ⟨some 0, false, true, ⟨1, 1, 1⟩, -2⟩ true ⟨2, 2, [1, 2, 2, 0]⟩ ⟨2, 2, [2, 1, 1, 0]⟩)) := by
+  decide +kernel
 
 end PdtVerif.OptCompletion
